@@ -381,6 +381,21 @@ def run(prog, rep, tier):
                            'the recipient list is overwritten: recipients registered earlier are dropped', body.loc(bl.idx, i))
     rep.floor('R07.6', nrec, 1, 'mutations of the recipient list')
 
+    # ---------------- R07.8 "opened with the private key of any one recipient ... and with no other key": the key retrieve_key hands out is the plaintext of
+    # one wrapped entry, returned on the edge where that entry's tag compared equal (same rule as R03.1 on this decrypt site: a key selected or combined
+    # without branching on the comparison -- e.g. accumulated over all entries -- is wrong as soon as two entries verify)
+    from .c03 import check_decrypt_site
+    nrk = 0
+    for body in mla.bodies:
+        if norm(body.defpath) != 'crypto::ecc::retrieve_key':
+            continue
+        for b in body.calls():
+            if b.term.cdef == 'crypto::aesgcm::AesGcm256::decrypt':
+                nrk += 1
+                rep.fn(body)
+                check_decrypt_site(prog, body, b, rep, RULE='R07.8')
+    rep.floor('R07.8', nrk, 1, 'decrypt site of retrieve_key')
+
     # ---------------- R07.7 the library never rewrites the caller's layer set
     r07_7(prog, rep)
 
